@@ -1,6 +1,7 @@
 package middleware
 
 import (
+	"net"
 	"sync"
 	"sync/atomic"
 
@@ -132,6 +133,22 @@ func (p *Pipeline) BindChain(ch *Chain) {
 		return
 	}
 	ch.Bind(p.handlers, p.workPolicy)
+}
+
+// AdmitsSource reports whether every enabled SourceAdmitter would let a
+// client at ip be answered. A pipeline without one admits everybody. It is
+// for replies produced ahead of the chain; inside the chain the handlers
+// speak for themselves.
+func (p *Pipeline) AdmitsSource(ip net.IP) bool {
+	if p == nil {
+		return true
+	}
+	for _, h := range p.handlers {
+		if a, ok := h.(SourceAdmitter); ok && !a.AdmitsSource(ip) {
+			return false
+		}
+	}
+	return true
 }
 
 // Purgers returns every enabled handler that implements Purger, in
